@@ -26,7 +26,7 @@ EXPLANATION = ('FRAME rounding classes and minimum length in frames_from_times; 
 TRUSTED = ['int() is floor for non-negative operands', 'numpy semantics']
 NOT_DECIDED = ['exact frame sets for off-grid times', 'mutual inverse as a whole']
 ASSUMPTIONS = []
-FLOORS = {'FRAME': 4, 'ALLOC': 2, 'SKIP': 1, 'WINDOW': 2, 'VELO': 1, 'DEC': 10}
+FLOORS = {'FRAME': 12, 'ALLOC': 2, 'SKIP': 3, 'WINDOW': 2, 'VELO': 1, 'DEC': 10}
 
 
 def E(t):
@@ -120,6 +120,118 @@ def ignored_notes_cannot_raise(ctx, rule):
     ctx.ob(rule, fi, fn, True, 'no raise depends on a note attribute', construct='no raise of sequence_to_pianoroll depends on a note')
 
 
+# (start_time, end_time, frames_per_second, min_frame_occupancy_for_label) -> (first active frame, one past the last): cases in which the
+# statement fixes the answer ("floor(start*fps) up to ceil(end*fps), at least one frame"): starts on the frame grid or occupancy 0, and
+# with a positive occupancy only notes that reach far past their second frame.  All values are exact binary fractions.
+FRAME_SCENARIOS = [
+    ((0, 1, 8, 0), (0, 8)),
+    (('1/8', '65/32', 8, 0), (1, 17)),
+    ((0, '65/32', 8, '1/4'), (0, 17)),          # reaches a quarter of a frame into frame 16: still "up to ceil(end*fps)"
+    ((0, '65/32', 8, '3/8'), (0, 17)),          # ... also when that is less than the occupancy asked for at the *start* of a note
+    ((0, '1/32', 8, 0), (0, 1)),
+    (('1/2', '1/2', 8, 0), (4, 5)),
+    (('1/32', 1, 8, 0), (0, 8)),
+    ((2, '129/32', 16, '1/4'), (32, 65)),
+]
+
+
+def frame_scenarios(ctx, ff, st_p, en_p):
+  """The frame helper evaluated path by path (substitution only) on FRAME_SCENARIOS."""
+  from sa import pathval, scenario
+  rule = 'FRAME/scenarios'
+  try:
+    ps = [(c, e) for c, e, end in pathval.paths(ff.node.body) if end == 'return' and pathval.RETURN in e]
+  except pathval.PathError as e:
+    why = 'cannot classify: frames_from_times is not a straight-line block (%s)' % e
+    ctx.ob(rule, ff, ff.node, False, why, construct='frames of a note in the stated scenarios', unknown=why)
+    return
+  for (a, b, fps, occ), want in FRAME_SCENARIOS:
+    sub = {st_p: nf.rat(E(str(a))), en_p: nf.rat(E(str(b))), 'frames_per_second': nf.rat(E(str(fps))), 'min_frame_occupancy_for_label': nf.rat(E(str(occ)))}
+    cons = 'frames of a note from %s s to %s s at %s frames per second, occupancy %s' % (a, b, fps, occ)
+    got, stuck = None, None
+    for conds, env in ps:
+      taken = True
+      for t, pol in conds:
+        v = scenario.fold_numeric(t, sub, dyadic=True)
+        if v is None:
+          stuck = norm_text(t)
+          taken = None
+          break
+        if bool(v) != pol:
+          taken = False
+          break
+      if taken is None:
+        break
+      if taken:
+        r = env[pathval.RETURN]
+        vals = [scenario.fold_numeric(x, sub, dyadic=True) for x in r.elts] if isinstance(r, ast.Tuple) and len(r.elts) == 2 else [None]
+        if any(x is None for x in vals):
+          stuck = norm_text(r)
+        else:
+          got = tuple(vals)
+        break
+    if got is None:
+      why = 'cannot classify: %s cannot be evaluated in this scenario' % (stuck or 'no path of frames_from_times')
+      ctx.ob(rule, ff, ff.node, False, why, construct=cons, unknown=why)
+    else:
+      ok = tuple(int(x) for x in got) == want and all(x == int(x) for x in got)
+      ctx.ob(rule, ff, ff.node, ok, 'active frames [%d, %d)' % want if ok else
+             'a note from %s s to %s s at %s frames per second (min_frame_occupancy_for_label = %s) is given the frames [%s, %s), not [%d, %d) = [floor(start*fps), ceil(end*fps))' % (
+                 a, b, fps, occ, got[0], got[1], want[0], want[1]), construct=cons, definite=True)
+
+
+def column_in_range(ctx, fi, loop, v):
+  """Scenario form of "notes outside the pitch range are ignored": with min_pitch = 21 and max_pitch = 108, a note of pitch 20
+  (column -1: numpy wraps it to the last column) or 109 (one past the last column) must not reach any store whose column is computed
+  from the note's pitch.  The guards on the way to each store (earlier `continue` exits included) are evaluated with those
+  values; guards that say nothing about the pitch or the range are left open."""
+  from sa import pitfalls, scenario
+  rule = 'SKIP/column-in-range'
+  ptxt = '%s.pitch' % v
+  stores = []
+  for st in U.walk_stmts(loop):
+    tgts = st.targets if isinstance(st, ast.Assign) else ([st.target] if isinstance(st, ast.AugAssign) else [])
+    for t in tgts:
+      if isinstance(t, ast.Subscript) and isinstance(t.slice, ast.Tuple) and len(t.slice.elts) == 2:
+        col = U.expand_locals(fi.node, t.slice.elts[1], at=st)
+        if any(norm_text(n) == ptxt for n in ast.walk(col)):
+          stores.append((st, t, col))
+  if not stores:
+    why = 'cannot classify: no store into a roll column computed from %s was found in the note loop' % ptxt
+    ctx.ob(rule, fi, loop, False, why, construct='out-of-range pitches reach no roll column', unknown=why)
+    return
+  for label, pitch in (('below min_pitch', 20), ('above max_pitch', 109)):
+    sub = {ptxt: nf.rat(E(str(pitch))), 'min_pitch': nf.rat(E('21')), 'max_pitch': nf.rat(E('108'))}
+    reached, opaque = [], []
+    for st, t, col in stores:
+      admitted = True
+      for g, pol in pitfalls.guards_at(fi.node, t):
+        gx = U.expand_locals(fi.node, g, at=st)
+        if not any(norm_text(n) in sub for n in ast.walk(gx)):
+          continue
+        val = scenario.fold_numeric(gx, sub)
+        if val is None:
+          opaque.append(norm_text(g))
+          admitted = None
+          break
+        if bool(val) != pol:
+          admitted = False
+          break
+      if admitted:
+        reached.append((st, scenario.fold_numeric(col, sub)))
+    cons = 'a note %s reaches no roll column' % label
+    if reached:
+      st, c = reached[0]
+      ctx.ob(rule, fi, st, False, 'with min_pitch = 21 and max_pitch = 108 a note of pitch %d is not skipped: no condition on the way to `%s` excludes it, and it is written into column %s '
+             '(%s): "notes outside the pitch range are ignored"' % (pitch, norm_text(st)[:70], c, 'numpy counts a negative column from the end' if pitch < 21 else 'past the last column: IndexError'),
+             construct=cons, definite=True)
+    elif opaque:
+      why = 'cannot classify: the condition(s) %s on the way to the column stores cannot be evaluated for a note of pitch %d' % (', '.join(sorted(set(opaque)))[:120], pitch)
+      ctx.ob(rule, fi, loop, False, why, construct=cons, unknown=why)
+    else:
+      ctx.ob(rule, fi, loop, True, 'with min_pitch = 21 and max_pitch = 108 a note of pitch %d is excluded on the way to each of the %d stores into a pitch column' % (pitch, len(stores)), construct=cons)
+
+
 def run(ctx):
   ignored_notes_cannot_raise(ctx, 'SKIP/ignored-notes-cannot-raise')
   onset_label_clamp(ctx, ctx.func(SL + ':sequence_to_pianoroll'))
@@ -135,6 +247,7 @@ def encoder(ctx):
   ff = roles.nested(fi, 'frames_from_times')
   ctx.require(ff is not None, 'sequence_to_pianoroll: frames_from_times helper not found')
   st_p, en_p = ff.params()
+  frame_scenarios(ctx, ff, st_p, en_p)
   ret = ff.node.body[-1]
   ctx.require(isinstance(ret, ast.Return) and isinstance(ret.value, ast.Tuple) and len(ret.value.elts) == 2, 'frames_from_times: expected `return start, end`')
   sname, ename = [norm_text(e) for e in ret.value.elts]
@@ -213,6 +326,7 @@ def encoder(ctx):
       any(has(p, '%s.pitch < min_pitch' % v) for p in parts) and any(has(p, '%s.pitch > max_pitch' % v) for p in parts)
   ctx.ob('SKIP/out-of-range', fi, first, ok, 'pitches outside [min_pitch, max_pitch] are skipped before any store' if ok else
          'the first statement of the note loop is not "pitch < min_pitch or pitch > max_pitch -> continue": out-of-range pitches reach the array stores (negative column = wraps)')
+  column_in_range(ctx, fi, loop, v)
   # location-independent: the onset window is written as the slice [start:end) of the onset roll; `end` is exclusive, so the largest
   # value it must be able to take is the number of rows.  A clamp of that bound to rows - 1 (np.clip / min with len(roll) - 1 or
   # shape[0] - 1) cuts the last frame out of every window: a note whose onset falls on the final frame gets no onset at all
